@@ -56,6 +56,8 @@ def check(ctx):
     ctx.floor('A10g', 1, 'reductions over per-scenario degree lists')
     from ..rules import persist as _psm
     _psm.check_decode_memos(ctx)
+    from ..rules import shapes as _shr
+    _shr.check_sibling_reductions(ctx)
 
 
 from ..selftest import V  # noqa: E402
